@@ -1,3 +1,5 @@
+// random.go: small PRNG documents sampled from the grammar of features the
+// generator implements.
 package c02
 
 import (
